@@ -77,12 +77,18 @@ def run(prop, tier, seed, profiles, n_quick, n_thorough, also=(), assumptions=()
                         d = oracle.compare_frames(o["frame"], mf, ordered and outer_sorted)
                         if d:
                             corr.append(dict(kind="sql_model_vs_sqlite", stmt=stt["id"], seed=p.get("seed"), profile=p.get("profile"), detail=d))
+    accepted_against_model = {c.get("seed") for c in corr if c.get("kind") == "outcome" and c.get("real") == "ok" and c.get("model") not in (None, "ok")}
     known_hits, new = {}, []
     for r in results:
         if "crash" in r:
             new.append((None, dict(kind="harness_crash", stmt="", detail=r["crash"][-800:])))
             continue
         k, nw = campaign.classify(r["program"], r["diffs"], r["trig"], findings, prop)
+        if r["program"].get("seed") in accepted_against_model:
+            # the real front end accepted a verb that the model of the unchanged decision logic refuses: the known findings describe the
+            # unchanged code and cannot explain what such a pipeline returns - its deviations are reported as they are
+            nw = nw + [d for ds in k.values() for d in ds if d.get("kind") in ("frames_differ", "spec_differs", "sqlite_only_error", "polars_only_error")]
+            k = {}
         for fid, ds in k.items():
             known_hits.setdefault(fid, []).extend(ds)
         new += [(r, d) for d in nw]
